@@ -265,7 +265,13 @@ func emptiness(v reflect.Value) (empty, open bool, target reflect.Value) {
 	}
 	switch v.Kind() {
 	case reflect.String, reflect.Slice, reflect.Array, reflect.Map:
-		return v.Len() == 0, behind, v
+		if v.Len() == 0 {
+			return true, behind, v
+		}
+		if !isZeroMethod(v.Type()) && !isZeroMethod(reflect.PtrTo(v.Type())) {
+			return false, behind, v
+		}
+		// a custom type of one of these kinds with an IsZero method: empty by size OR by IsZero (both are in the documented list)
 	}
 	if isZeroMethod(v.Type()) {
 		return v.MethodByName("IsZero").Call(nil)[0].Bool(), behind, v
